@@ -201,7 +201,7 @@ def composite(rng, hostile=False, alias=False):
             'kind': 'composite'}
 
 
-def pair_designs(rng, count, widths=(1, 2, 3)):
+def pair_designs(rng, count, widths=(1, 2, 3), seq_first=False):
     """structural tops that hold TWO configurations of the same library class (different widths, parameters or optional
     ports, e.g. DelayLine(delay=0) next to DelayLine(delay=2)), in either order: whatever a generator remembers per class
     or per module name must not leak from one instance to the other"""
@@ -217,7 +217,8 @@ def pair_designs(rng, count, widths=(1, 2, 3)):
     tries = 0
     # first, for every class, its two extreme configurations (first and last of the catalogue) in both orders; then random pairs
     fixed = []
-    for kind in kinds:
+    order = sorted(kinds, key=lambda k_: (not groups[k_][0][1], k_)) if seq_first else kinds      # sequential classes first
+    for kind in order:
         g = groups[kind]
         fixed += [(kind, g[0], g[-1]), (kind, g[-1], g[0])]
     while len(out) < count and tries < 20 * count:
